@@ -1,29 +1,243 @@
 (* C01 — log contents equal an append-only list model (pinned statements, generated from the types Coq reports;
-   proofs in Refine.v, StorageFacts.v, OffsetFacts.v, TreeRef.v, CoreFacts.v).
-   PROVED END TO END for the fragment {append, batch append (empty batches, empty blocks included), get, has,
-   info} from the creation of a writer, for EVERY sequence of flush decisions (theorems C01_fresh_history /
-   C01_history): the observations of the model equal the list model's (`spec_obs`: get i = the i-th appended
-   block or None, length = count, byte length = total size, contiguous length = count), with core, disk and
-   journal untouched by reads. The invariant WInv (tree = reference tree with every full node found by lookup in
-   the unflushed map or the tree store, bitfield = [0,n), data file = concatenation of the blocks) is established by
-   creation and preserved by every append, including across flushes that move nodes to the store.
-   Hypotheses, all satisfiable and exhibited by the toy instance of Refine.v: the hash returns 32 bytes and never
-   32 zero bytes (a node whose hash is all zeros is treated as blank by the crate — `blank_hash_breaks_reads` shows
-   the model failing without this; for BLAKE2b this has probability 2^-256), totals below 2^64; the only other
-   outcome allowed is the crate's own panic for an oplog entry larger than 2^30 bytes.
-   NOT proved: clears and close/reopen (replay). Those parts of the property are decided on every run by tools/c01.py
-   (corpus, bounded-exhaustive and random histories with clears and reopen after arbitrary prefixes, "epoch"
-   histories, a core crossing 8192 and 32768 blocks) under the list-model oracle, with the model executed side by
-   side; the components they rest on are proved: storage semantics incl. delete (below), C06 (what is written is
-   read back), C08 (bitfield and contiguous length under replay), C02 (which header/entries a reopen sees). *)
-From HC Require Import Base NMap Codec Crypto FlatTree Storage Bitfield Oplog Merkle Core StorageFacts OffsetFacts TreeRef CoreFacts Refine.
+   proofs in Refine.v, Reopen.v, ClearRefine.v, StorageFacts.v, OffsetFacts.v, TreeRef.v, CoreFacts.v).
+   PROVED END TO END, from the creation of a writer and for EVERY sequence of flush decisions:
+   (A) histories over {append, batch append (empty batches and empty blocks included), get, has, info, drop-and-reopen}
+       observe exactly the list model (C01_fresh_history_with_reopen): get i = the i-th appended block or None,
+       length = count, byte length = total size, contiguous length = count; reopening changes no observation
+       (C01_reopen_changes_no_observation) and re-establishes the disk invariant DInv (oplog file = header slots +
+       entries as in Crash.v, tree store, bitfield store, data store), also with unflushed entries pending (replay);
+   (B) histories over {append, batch append, clear(start<end, start<length, end possibly beyond the length), get, has, info}
+       observe exactly the list-with-cleared-set model (C01_fresh_history_with_clears): nothing for cleared or
+       never-written indices, clearing affects no block outside its range (C01_clear_affects_nothing_outside), contiguous
+       length = smallest index not held.
+   Hypotheses, all satisfiable and exhibited by the toy instances (Examples toy_history*, proved by vm_compute): the hash
+   returns 32 genuine bytes and never 32 zero bytes (the crate treats an all-zero hash as a blank node —
+   `blank_hash_breaks_reads` shows the model failing without this; probability 2^-256 for BLAKE2b), signatures are 64
+   genuine bytes, the CRC fits 32 bits, totals below 2^64; the only other outcome allowed is the crate's own panic for an
+   oplog entry above 2^30 bytes.
+   The proof attempt of (B) REFUTED the statement on the unrepaired crate (clear behind a stranded empty block failed with
+   InvalidOperation); the witness was replayed on the crate, repaired there (fix commit, known_findings.txt D24) and is
+   kept as the regression Example stranded_empty_block_clear_ok.
+   NOT proved: histories mixing clears WITH reopen (the two invariants are not yet merged). That combination is decided on
+   every run by tools/c01.py under the list-model oracle, with the model executed side by side. *)
+From HC Require Import Base NMap Codec Crypto FlatTree Storage Bitfield Oplog Merkle Core OplogFacts StorageFacts OffsetFacts TreeRef CoreFacts Refine ClearRefine Reopen.
+
+Theorem C01_fresh_history_with_reopen :
+  forall cr : crypto,
+         crc_ok cr ->
+         (forall x : bytes, Datatypes.length (cr_hash cr x) = 32%nat) ->
+         (forall x : bytes, all_zero (cr_hash cr x) = false) ->
+         (forall x : bytes, bytes_ok (cr_hash cr x) = true) ->
+         (forall sk m : bytes, Datatypes.length (cr_sign cr sk m) = 64%nat) ->
+         (forall sk m : bytes, bytes_ok (cr_sign cr sk m) = true) ->
+         forall (kp : keypair) (sk : bytes) (ops : list rop),
+         keypair_ok kp = true ->
+         kp_secret kp = Some sk ->
+         sumN (map len (rappended ops)) <= u64_max ->
+         NODE_SIZE * (2 * N.of_nat (Datatypes.length (rappended ops))) <= u64_max ->
+         exists (d0 : disk) (ops0 : list sop) (c0 : core),
+           core_open cr (Some kp) false disk_empty = (d0, ops0, Ok c0) /\
+           (rrun_obs cr ops c0 {| w_disk := d0; w_journal := []; w_events := [] |} = rspec_obs ops [] \/
+            (exists k : nat,
+               rrun_obs cr ops c0 {| w_disk := d0; w_journal := []; w_events := [] |} =
+               firstn k (rspec_obs ops []) ++ [ROAppend (Panic frame_msg)])).
+Proof. exact fresh_history_with_reopen_correct. Qed.
+
+Theorem C01_history_with_reopen :
+  forall cr : crypto,
+         crc_ok cr ->
+         (forall x : bytes, Datatypes.length (cr_hash cr x) = 32%nat) ->
+         (forall x : bytes, all_zero (cr_hash cr x) = false) ->
+         (forall x : bytes, bytes_ok (cr_hash cr x) = true) ->
+         (forall sk m : bytes, Datatypes.length (cr_sign cr sk m) = 64%nat) ->
+         (forall sk m : bytes, bytes_ok (cr_sign cr sk m) = true) ->
+         forall (ops : list rop) (c : core) (d : disk) (j : list sop) (ev : list event) 
+           (bs : list bytes) (sk : bytes),
+         DInv cr c d bs ->
+         kp_secret (c_keypair c) = Some sk ->
+         sumN (map len (bs ++ rappended ops)) <= u64_max ->
+         NODE_SIZE * (2 * N.of_nat (Datatypes.length (bs ++ rappended ops))) <= u64_max ->
+         rrun_obs cr ops c {| w_disk := d; w_journal := j; w_events := ev |} = rspec_obs ops bs \/
+         (exists k : nat,
+            rrun_obs cr ops c {| w_disk := d; w_journal := j; w_events := ev |} =
+            firstn k (rspec_obs ops bs) ++ [ROAppend (Panic frame_msg)]).
+Proof. exact history_with_reopen_correct. Qed.
+
+Theorem C01_reopen_changes_no_observation :
+  forall cr : crypto,
+         crc_ok cr ->
+         (forall x : bytes, Datatypes.length (cr_hash cr x) = 32%nat) ->
+         (forall x : bytes, all_zero (cr_hash cr x) = false) ->
+         (forall x : bytes, bytes_ok (cr_hash cr x) = true) ->
+         forall (c : core) (d : disk) (bs : list bytes),
+         DInv cr c d bs ->
+         exists c' : core,
+           core_open cr None true d = (d, [], Ok c') /\
+           DInv cr c' d bs /\
+           core_info c' = core_info c /\
+           (forall i : N, core_has c' i = core_has c i) /\
+           (forall (i : N) (j : list sop) (ev : list event),
+            snd (core_get i c' {| w_disk := d; w_journal := j; w_events := ev |}) =
+            snd (core_get i c {| w_disk := d; w_journal := j; w_events := ev |}) /\
+            snd (fst (core_get i c' {| w_disk := d; w_journal := j; w_events := ev |})) =
+            snd (fst (core_get i c {| w_disk := d; w_journal := j; w_events := ev |}))).
+Proof. exact reopen_observations. Qed.
+
+Theorem C01_reopen_reestablishes_invariant :
+  forall cr : crypto,
+         crc_ok cr ->
+         (forall x : bytes, Datatypes.length (cr_hash cr x) = 32%nat) ->
+         (forall x : bytes, all_zero (cr_hash cr x) = false) ->
+         (forall x : bytes, bytes_ok (cr_hash cr x) = true) ->
+         forall (c : core) (d : disk) (bs : list bytes),
+         DInv cr c d bs ->
+         exists c' : core,
+           core_open cr None true d = (d, [], Ok c') /\
+           DInv cr c' d bs /\
+           c_keypair c' = c_keypair c /\
+           core_info c' = core_info c /\ (forall i : N, core_has c' i = core_has c i).
+Proof. exact reopen_correct. Qed.
+
+Theorem C01_append_preserves_disk_invariant :
+  forall cr : crypto,
+         crc_ok cr ->
+         (forall x : bytes, Datatypes.length (cr_hash cr x) = 32%nat) ->
+         (forall x : bytes, all_zero (cr_hash cr x) = false) ->
+         (forall x : bytes, bytes_ok (cr_hash cr x) = true) ->
+         (forall sk m : bytes, Datatypes.length (cr_sign cr sk m) = 64%nat) ->
+         (forall sk m : bytes, bytes_ok (cr_sign cr sk m) = true) ->
+         forall (f : option bool) (batch : list bytes) (c : core) (d : disk) (j : list sop) 
+           (ev : list event) (bs : list bytes) (sk : bytes) (c' : core) (w' : world) 
+           (r : res (N * N)),
+         DInv cr c d bs ->
+         kp_secret (c_keypair c) = Some sk ->
+         sumN (map len (bs ++ batch)) <= u64_max ->
+         NODE_SIZE * (2 * N.of_nat (Datatypes.length (bs ++ batch))) <= u64_max ->
+         core_append cr f batch c {| w_disk := d; w_journal := j; w_events := ev |} = (c', w', r) ->
+         r = Panic frame_msg \/
+         r = Ok (N.of_nat (Datatypes.length (bs ++ batch)), sumN (map len (bs ++ batch))) /\
+         DInv cr c' (w_disk w') (bs ++ batch) /\ c_keypair c' = c_keypair c.
+Proof. exact append_DInv. Qed.
+
+Theorem C01_creation_establishes_disk_invariant :
+  forall cr : crypto,
+         crc_ok cr ->
+         (forall x : bytes, Datatypes.length (cr_hash cr x) = 32%nat) ->
+         (forall x : bytes, all_zero (cr_hash cr x) = false) ->
+         (forall x : bytes, bytes_ok (cr_hash cr x) = true) ->
+         forall kp : keypair,
+         keypair_ok kp = true ->
+         exists (d' : disk) (ops : list sop) (c : core),
+           core_open cr (Some kp) false disk_empty = (d', ops, Ok c) /\ DInv cr c d' [] /\ c_keypair c = kp.
+Proof. exact DInv_init. Qed.
+
+Theorem C01_fresh_history_with_clears :
+  forall cr : crypto,
+         (forall x : bytes, Datatypes.length (cr_hash cr x) = 32%nat) ->
+         (forall x : bytes, all_zero (cr_hash cr x) = false) ->
+         forall (kp : keypair) (sk : bytes) (ops : list cop),
+         keypair_ok kp = true ->
+         kp_secret kp = Some sk ->
+         wf_c ops 0 ->
+         sumN (map len (appended_c ops)) <= u64_max ->
+         NODE_SIZE * (2 * N.of_nat (Datatypes.length (appended_c ops))) <= u64_max ->
+         exists (d0 : disk) (ops0 : list sop) (c0 : core),
+           core_open cr (Some kp) false disk_empty = (d0, ops0, Ok c0) /\
+           (run_obs_c cr ops c0 {| w_disk := d0; w_journal := []; w_events := [] |} =
+            spec_obs_c ops [] (fun _ : N => false) \/
+            (exists (k : nat) (o : cobs),
+               run_obs_c cr ops c0 {| w_disk := d0; w_journal := []; w_events := [] |} =
+               firstn k (spec_obs_c ops [] (fun _ : N => false)) ++ [o] /\ stop_obs o)).
+Proof. exact fresh_history_correct_c. Qed.
+
+Theorem C01_history_with_clears :
+  forall cr : crypto,
+         (forall x : bytes, Datatypes.length (cr_hash cr x) = 32%nat) ->
+         (forall x : bytes, all_zero (cr_hash cr x) = false) ->
+         forall (ops : list cop) (c : core) (d : disk) (j : list sop) (ev : list event) 
+           (bs : list bytes) (cl : N -> bool) (sk : bytes),
+         CInv cr c d bs cl ->
+         kp_secret (c_keypair c) = Some sk ->
+         wf_c ops (N.of_nat (Datatypes.length bs)) ->
+         sumN (map len (bs ++ appended_c ops)) <= u64_max ->
+         NODE_SIZE * (2 * N.of_nat (Datatypes.length (bs ++ appended_c ops))) <= u64_max ->
+         run_obs_c cr ops c {| w_disk := d; w_journal := j; w_events := ev |} = spec_obs_c ops bs cl \/
+         (exists (k : nat) (o : cobs),
+            run_obs_c cr ops c {| w_disk := d; w_journal := j; w_events := ev |} =
+            firstn k (spec_obs_c ops bs cl) ++ [o] /\ stop_obs o).
+Proof. exact history_correct_c. Qed.
+
+Theorem C01_clear_preserves_invariant :
+  forall cr : crypto,
+         (forall x : bytes, Datatypes.length (cr_hash cr x) = 32%nat) ->
+         (forall x : bytes, all_zero (cr_hash cr x) = false) ->
+         forall (f : option bool) (c : core) (d : disk) (j : list sop) (ev : list event) 
+           (bs : list bytes) (cl : N -> bool) (start end_ : N) (c' : core) (w' : world) 
+           (r : res unit),
+         let n := N.of_nat (Datatypes.length bs) in
+         CInv cr c d bs cl ->
+         start < n ->
+         start < end_ ->
+         core_clear cr f start end_ c {| w_disk := d; w_journal := j; w_events := ev |} = (c', w', r) ->
+         r = Ok tt /\ CInv cr c' (w_disk w') bs (cl_clear cl start end_) /\ c_keypair c' = c_keypair c \/
+         r = Panic frame_msg.
+Proof. exact clear_preserves. Qed.
+
+Theorem C01_clear_affects_nothing_outside :
+  forall cr : crypto,
+         (forall x : bytes, Datatypes.length (cr_hash cr x) = 32%nat) ->
+         (forall x : bytes, all_zero (cr_hash cr x) = false) ->
+         forall (f : option bool) (c : core) (d : disk) (j : list sop) (ev : list event) 
+           (bs : list bytes) (cl : N -> bool) (start end_ : N) (c' : core) (d' : disk) 
+           (j' : list sop) (ev' : list event) (i : N),
+         let n := N.of_nat (Datatypes.length bs) in
+         CInv cr c d bs cl ->
+         start < n ->
+         start < end_ ->
+         core_clear cr f start end_ c {| w_disk := d; w_journal := j; w_events := ev |} =
+         (c', {| w_disk := d'; w_journal := j'; w_events := ev' |}, Ok tt) ->
+         i < start \/ end_ <= i ->
+         core_has c' i = core_has c i /\
+         (forall (j1 : list sop) (ev1 : list event) (j2 : list sop) (ev2 : list event),
+          snd (core_get i c' {| w_disk := d'; w_journal := j1; w_events := ev1 |}) =
+          snd (core_get i c {| w_disk := d; w_journal := j2; w_events := ev2 |})).
+Proof. exact clear_outside. Qed.
+
+Theorem C01_get_with_cleared_set :
+  forall (cr : crypto) (c : core) (d : disk) (bs : list bytes) (cl : N -> bool) 
+           (j : list sop) (ev : list event) (i : N),
+         CInv cr c d bs cl ->
+         core_get i c {| w_disk := d; w_journal := j; w_events := ev |} =
+         (if held (N.of_nat (Datatypes.length bs)) cl i
+          then (c, {| w_disk := d; w_journal := j; w_events := ev |}, Ok (Some (nth (N.to_nat i) bs [])))
+          else (c, {| w_disk := d; w_journal := j; w_events := EvGet i :: ev |}, Ok None)).
+Proof. exact get_correct_c. Qed.
+
+Theorem C01_info_with_cleared_set :
+  forall (cr : crypto) (c : core) (d : disk) (bs : list bytes) (cl : N -> bool),
+         CInv cr c d bs cl ->
+         core_info c =
+         {|
+           i_length := N.of_nat (Datatypes.length bs);
+           i_byte_length := sumN (map len bs);
+           i_contiguous := spec_contig bs cl;
+           i_fork := 0;
+           i_writeable := match kp_secret (c_keypair c) with
+                          | Some _ => true
+                          | None => false
+                          end
+         |} /\
+         spec_contig bs cl <= N.of_nat (Datatypes.length bs) /\
+         (forall i : N, i < spec_contig bs cl -> held (N.of_nat (Datatypes.length bs)) cl i = true) /\
+         held (N.of_nat (Datatypes.length bs)) cl (spec_contig bs cl) = false.
+Proof. exact info_correct_c. Qed.
 
 Theorem C01_fresh_history :
   forall cr : crypto,
          (forall x : bytes, Datatypes.length (cr_hash cr x) = 32%nat) ->
          (forall x : bytes, all_zero (cr_hash cr x) = false) ->
          forall (kp : keypair) (sk : bytes) (ops : list wop),
-         OplogFacts.keypair_ok kp = true ->
+         keypair_ok kp = true ->
          kp_secret kp = Some sk ->
          sumN (map len (appended ops)) <= u64_max ->
          NODE_SIZE * (2 * N.of_nat (Datatypes.length (appended ops))) <= u64_max ->
@@ -34,29 +248,6 @@ Theorem C01_fresh_history :
                run_obs cr ops c0 {| w_disk := d0; w_journal := []; w_events := [] |} =
                firstn k (spec_obs ops []) ++ [OAppend (Panic frame_msg)])).
 Proof. exact fresh_history_correct. Qed.
-
-Theorem C01_history :
-  forall cr : crypto,
-         (forall x : bytes, Datatypes.length (cr_hash cr x) = 32%nat) ->
-         (forall x : bytes, all_zero (cr_hash cr x) = false) ->
-         forall (ops : list wop) (c : core) (d : disk) (j : list sop) (ev : list event) 
-           (bs : list bytes) (sk : bytes),
-         WInv cr c d bs ->
-         kp_secret (c_keypair c) = Some sk ->
-         sumN (map len (bs ++ appended ops)) <= u64_max ->
-         NODE_SIZE * (2 * N.of_nat (Datatypes.length (bs ++ appended ops))) <= u64_max ->
-         run_obs cr ops c {| w_disk := d; w_journal := j; w_events := ev |} = spec_obs ops bs \/
-         (exists k : nat,
-            run_obs cr ops c {| w_disk := d; w_journal := j; w_events := ev |} =
-            firstn k (spec_obs ops bs) ++ [OAppend (Panic frame_msg)]).
-Proof. exact history_correct. Qed.
-
-Theorem C01_creation_establishes_invariant :
-  forall (cr : crypto) (kp : keypair),
-         OplogFacts.keypair_ok kp = true ->
-         exists (d' : disk) (ops : list sop) (c : core),
-           core_open cr (Some kp) false disk_empty = (d', ops, Ok c) /\ WInv cr c d' [] /\ c_keypair c = kp.
-Proof. exact WInv_init_keypair_ok. Qed.
 
 Theorem C01_append_preserves_invariant :
   forall cr : crypto,
@@ -141,31 +332,19 @@ Theorem C01_append_journal_order :
            (fl = [] \/ flush_shape fl).
 Proof. exact append_journal_order. Qed.
 
-Theorem C01_byte_offset_is_left_sum :
-  forall (t : mtree) (tf : file) (sz : N -> N) (pre : list node) (r : node) 
-           (post : list node) (index head off : N),
-         let d := N.to_nat (ft_depth (n_index r)) in
-         skipped pre head index ->
-         heads pre head = span_lo d (it_new (n_index r)) ->
-         (d < CLIMB)%nat ->
-         index mod 2 = 0 ->
-         heads pre head <= index ->
-         index < next_head (heads pre head) r ->
-         lookups_ok t tf sz d (it_new (n_index r)) ->
-         offset_roots t tf (pre ++ r :: post) index head off =
-         Ok (off + sumN (map n_length pre) + left_sum sz d (it_new (n_index r)) index).
-Proof. exact offset_roots_spec. Qed.
-
-Theorem C01_node_sizes_are_block_sums :
-  forall (cr : crypto) (blocks : list bytes) (d : nat) (o : N),
-         n_length (ref_node cr blocks d o) = ref_size blocks d o /\
-         prefix_size blocks (o * 2 ^ N.of_nat d) + ref_size blocks d o =
-         prefix_size blocks ((o + 1) * 2 ^ N.of_nat d).
-Proof. exact ref_node_size. Qed.
-
+Print Assumptions C01_fresh_history_with_reopen.
+Print Assumptions C01_history_with_reopen.
+Print Assumptions C01_reopen_changes_no_observation.
+Print Assumptions C01_reopen_reestablishes_invariant.
+Print Assumptions C01_append_preserves_disk_invariant.
+Print Assumptions C01_creation_establishes_disk_invariant.
+Print Assumptions C01_fresh_history_with_clears.
+Print Assumptions C01_history_with_clears.
+Print Assumptions C01_clear_preserves_invariant.
+Print Assumptions C01_clear_affects_nothing_outside.
+Print Assumptions C01_get_with_cleared_set.
+Print Assumptions C01_info_with_cleared_set.
 Print Assumptions C01_fresh_history.
-Print Assumptions C01_history.
-Print Assumptions C01_creation_establishes_invariant.
 Print Assumptions C01_append_preserves_invariant.
 Print Assumptions C01_get_returns_the_block.
 Print Assumptions C01_byte_range_is_prefix_sum.
@@ -175,7 +354,8 @@ Print Assumptions C01_write_elsewhere_preserves.
 Print Assumptions C01_write_at_end_appends.
 Print Assumptions C01_delete_semantics.
 Print Assumptions C01_append_journal_order.
-Print Assumptions C01_byte_offset_is_left_sum.
-Print Assumptions C01_node_sizes_are_block_sums.
 Print Assumptions toy_history.
+Print Assumptions toy_history_with_reopen.
+Print Assumptions toy_history_c.
 Print Assumptions blank_hash_breaks_reads.
+Print Assumptions stranded_empty_block_clear_ok.
